@@ -106,8 +106,9 @@ CLAIMED["C08"] = dict(
     text="generate_real_spherical_harmonics is executed for arbitrary directions (angles as unit-circle pairs, so every theta/phi incl. poles and out-of-range angles) up to l_max 6/12: addition theorem for every l, "
          "d^2Y/dtheta^2 = -m^2 Y with the documented row order and cos-before-sin, the Laplace-Beltrami eigen-equation (harmonicity of r^l Y_lm), pole values, identification with independently typed solid harmonics "
          "for l <= 3 (definition, sign, normalisation); solid_harmonics = sqrt(4pi/(2l+1)) r^l Y_lm; convert_cart_to_sph reconstructs every point for symbolic point and centre on all branches; the Jacobian of "
-         "convert_derivative_from_spherical_to_cartesian satisfies the chain rule and its degenerate branches.",
-    note="the SciPy-based implementation and the derivative routine (compiled Y_l^m, complex exponentials) are outside; trigonometric identities are decided by normalisation modulo c^2+s^2=1, inequalities by z3",
+         "convert_derivative_from_spherical_to_cartesian satisfies the chain rule and its degenerate branches; with scipy's sph_harm_y / sph_harm_y_all replaced by their documented definition, the SciPy-based "
+         "implementation equals the recursion row by row and the derivative routine returns dY/dtheta and dY/dphi (away from the poles) for l_max 3/6.",
+    note="SciPy's compiled Y_l^m is a stub carrying its documented definition (Condon-Shortley phase); floating-point effects at the poles and at very high degree are outside; trigonometric identities are decided by normalisation modulo c^2+s^2=1, inequalities by z3",
     ref="DESIGN.md#c08")
 
 CLAIMED.update({
